@@ -26,6 +26,10 @@ import (
 type Cfg struct {
 	Origin uint64  `json:"origin_ms"`
 	Table  []rs.RS `json:"rule_table"`
+	// Budget: a scripted scenario instead of the random history. A hot-parameter QPS rule with a long duration is
+	// replaced, inside its window, by one with another threshold; what is admitted afterwards must follow the
+	// rule in force, not the budget of the replaced one. [threshold before, requests before, threshold after, requests after]
+	Budget []int64 `json:"budget,omitempty"`
 }
 
 const nRes = 3
@@ -39,7 +43,7 @@ func (P) Engine() string { return "E1" }
 
 func (P) Describe() harness.Description {
 	return harness.Description{
-		MustHit: []string{"per_resource_load_with_a_rule_of_another_resource", "outlier_valid_and_invalid_rule_for_one_resource", "element_replaced_in_loaded_slice_and_reloaded", "invalid_rule_in_load", "nil_rule_in_load", "identical_reload", "probe_blocked_by_enforced_rule", "per_resource_load"},
+		MustHit: []string{"rule_replaced_inside_its_window_by_another_threshold", "per_resource_load_with_a_rule_of_another_resource", "outlier_valid_and_invalid_rule_for_one_resource", "element_replaced_in_loaded_slice_and_reloaded", "invalid_rule_in_load", "nil_rule_in_load", "identical_reload", "probe_blocked_by_enforced_rule", "per_resource_load"},
 		Level:   "exploration",
 		Rule: "case = (table of 6-24 rule specifications over the six modules: valid never-blocking, valid always-blocking, invalid in exactly one field-wise way (built so that they would block a probe if enforced), nil elements; 5-30 operations: LoadRules, LoadRulesOfResource, ClearRules, ClearRulesOfResource, identical reload with freshly allocated objects, probe). " +
 			"After every call: no panic escaped; the getters equal the rule-set model (per resource, in order); the enforcement accessors (traffic controllers / breakers / enforced outlier rule) carry exactly the model's rules; probe traffic on every resource is blocked by exactly the first module that holds an enforced blocking rule and otherwise passes; an identical reload reports 'unchanged'. " +
@@ -64,6 +68,11 @@ func encList(l []int) []string {
 
 func (P) Gen(rng *sim.Rng, tier string) *harness.Case {
 	cfg := Cfg{Origin: 1700000000000 + rng.U64Range(0, 100000)}
+	if rng.Chance(0.04) {
+		a := int64([]int{1, 2, 5, 100}[rng.Intn(4)])
+		b := int64([]int{1, 2, 5, 100}[rng.Intn(4)])
+		cfg.Budget = []int64{a, int64(rng.Range(0, int(a)+1)), b, int64(rng.Range(1, 12)), int64(rng.Intn(2))}
+	}
 	n := rng.Range(6, 24)
 	for i := 0; i < n; i++ {
 		m := rng.Intn(rs.NumModules)
@@ -379,6 +388,10 @@ func (P) Exec(c *harness.Case) *harness.Outcome {
 		}
 	}
 	env := harness.Reset(cfg.Origin*1e6, harness.DefaultGeometry())
+	if len(cfg.Budget) == 5 {
+		execBudget(&cfg, o)
+		return o
+	}
 	model := make([]rset, rs.NumModules)
 	for m := range model {
 		model[m] = rset{}
@@ -770,3 +783,69 @@ func checkState(o *harness.Outcome, step int, model []rset) bool {
 }
 
 var _ = fmt.Sprintf
+
+// execBudget: see Cfg.Budget. The clock stands still, so everything happens inside one window of the rule. The rule
+// object of the second load is fresh and carries the same ID. Whether the replaced rule's consumption carries over to
+// the new one is left open (a modified rule may keep its statistics or start afresh): with k requests admitted before
+// and n offered after, the number admitted after must be min(n, b) or min(n, max(0, b-k)) - in no case does the
+// threshold of the replaced rule appear in it.
+func execBudget(cfg *Cfg, o *harness.Outcome) {
+	a, before, b, n, perRes := cfg.Budget[0], cfg.Budget[1], cfg.Budget[2], cfg.Budget[3], cfg.Budget[4] == 1
+	if a <= 0 || b <= 0 || before < 0 || n <= 0 || n > 1000 || before > 1000 {
+		return
+	}
+	const resName = "res-0"
+	load := func(t int64) {
+		harness.Call(o, "C13.load-panicked", 0, func() {
+			r := []*hotspot.Rule{{ID: "budget", Resource: resName, MetricType: hotspot.QPS, ControlBehavior: hotspot.Reject, ParamIndex: 0, Threshold: t, DurationInSec: 3600}}
+			if perRes {
+				_, _ = hotspot.LoadRulesOfResource(resName, r)
+			} else {
+				_, _ = hotspot.LoadRules(r)
+			}
+		})
+	}
+	offer := func(k int64) (admitted int64) {
+		for i := int64(0); i < k && !o.Failed(); i++ {
+			harness.Call(o, "C13.probe-panicked", 0, func() {
+				if e, _ := sentinel.Entry(resName, harness.EntryOpts(1, false, []interface{}{"v"}, nil, nil)...); e != nil {
+					admitted++
+					e.Exit()
+				}
+			})
+		}
+		return
+	}
+	load(a)
+	k := offer(before)
+	if o.Failed() {
+		return
+	}
+	load(b)
+	got := offer(n)
+	if o.Failed() {
+		return
+	}
+	min := func(x, y int64) int64 {
+		if x < y {
+			return x
+		}
+		return y
+	}
+	fresh, carried := min(n, b), min(n, b-k)
+	if carried < 0 {
+		carried = 0
+	}
+	o.Nontrivial = true
+	o.Probe("rule_replaced_inside_its_window_by_another_threshold")
+	if got != fresh && got != carried {
+		o.Fail("C13.replaced-rule-still-decides", 0, "hot-parameter QPS rule, threshold %d per hour: %d request(s) for one value admitted; rule replaced by threshold %d (fresh object, same ID, getter reports %d); of the next %d requests %d were admitted - the rule in force allows %d (consumption carried over) or %d (fresh), the budget left under the replaced rule was %d", a, k, b, thresholdInForce(resName), n, got, carried, fresh, a-k)
+	}
+}
+
+func thresholdInForce(res string) int64 {
+	for _, r := range hotspot.GetRulesOfResource(res) {
+		return r.Threshold
+	}
+	return -1
+}
